@@ -235,7 +235,7 @@ SPECS_FN = ["TracePy", "Sexp", "BigInt", "Prim", "SerClassic", "SerBackrefs", "S
 
 SIZES = {
     # tier: (shards, run programs/shard, codec cases/shard, conv trees/shard, pure n/shard, curry cases/shard)
-    "quick": (8, 110, 50, 45, 110, 40),
+    "quick": (8, 110, 50, 30, 110, 40),
     "thorough": (16, 450, 200, 150, 450, 150),
 }
 
@@ -333,32 +333,44 @@ def check_c26(out, tier, seed, hb, pkg, key):
 # ---------------------------------------------------------------------------
 # C27
 
-MC_CFGS = ["bug", "cases", "fix", "cached"]
+MC_CFGS = ["bug", "cases", "fix", "cached", "mixed_node", "mixed_cases", "mixed_addr", "mixed_allocnode"]
+# name -> (module, cfg, expectation)
+MC_MODELS = {
+    "bug": ("MCLazyConv", "MCLazyConv_bug.cfg", "violates"),          # F1 as it was before the repair
+    "cases": ("MCLazyConv", "MCLazyConv_cases.cfg", "cases"),
+    "fix": ("MCLazyConv", "MCLazyConv_fix.cfg", "holds"),             # visited objects kept alive (the repaired code)
+    "cached": ("MCLazyConv", "MCLazyConv_cached.cfg", "holds"),
+    "mixed_node": ("MCLazyConvMixed", "MCLazyConvMixed_node.cfg", "violates"),   # LazyNodes keyed by NodePtr alone
+    "mixed_cases": ("MCLazyConvMixed", "MCLazyConvMixed_cases.cfg", "cases"),
+    "mixed_addr": ("MCLazyConvMixed", "MCLazyConvMixed_addr.cfg", "holds"),      # the code: keyed by address
+    "mixed_allocnode": ("MCLazyConvMixed", "MCLazyConvMixed_allocnode.cfg", "holds"),
+}
 
 
 def lazyconv_models():
-    """the four bounded models of LazyConv.tla (spec-only: cached by the hash of the spec files)"""
+    """the bounded models of LazyConv.tla / LazyConvMixed.tla (spec-only: cached by the hash of the spec files)"""
     def compute():
         r = {}
         for c in MC_CFGS:
-            res = C.run_tlc("MCLazyConv", cfg="MCLazyConv_%s.cfg" % c, workers=min(8, C.NCPU), timeout=3600,
-                            name="MCLazyConv_" + c)
+            module, cfg, expect = MC_MODELS[c]
+            res = C.run_tlc(module, cfg=cfg, workers=min(8, C.NCPU), timeout=3600, name="MC-" + c)
             d = {"rc": res.rc, "gen": res.generated, "distinct": res.distinct, "violated": res.invariant_violated, "wall": res.wall}
-            if c == "bug":
+            if expect == "violates":
                 if not ("Invariant Correct is violated" in res.out):
-                    raise C.ToolError("LazyConv: the model of the code as written does not exhibit the address-reuse "
-                                      "counterexample (expected: Invariant Correct violated)\n" + res.out[-3000:])
+                    raise C.ToolError("%s/%s: the model does not exhibit the expected counterexample "
+                                      "(expected: Invariant Correct violated)\n%s" % (module, cfg, res.out[-3000:]))
                 i = res.out.find("Error: Invariant Correct is violated")
                 d["trace"] = res.out[i:i + 12000]
             else:
                 if res.invariant_violated:
-                    raise C.ToolError("LazyConv model %s violates an invariant (specification error):\n%s" % (c, res.out[-4000:]))
-                C.tlc_ok_or_raise(res, "MCLazyConv_" + c)
-            if c == "cases":
+                    raise C.ToolError("model %s violates an invariant (specification error):\n%s" % (cfg, res.out[-4000:]))
+                C.tlc_ok_or_raise(res, cfg)
+            if expect == "cases":
                 d["cases"] = res.tagged("CASE")
             r[c] = d
         return r
-    return _cached("lazyconv|" + C.spec_hash(["LazyConv", "MCLazyConv"] + ["MCLazyConv_%s.cfg" % c for c in MC_CFGS]), compute)
+    files = ["LazyConv", "MCLazyConv", "LazyConvMixed", "MCLazyConvMixed"] + [MC_MODELS[c][1] for c in MC_CFGS]
+    return _cached("lazyconv|" + C.spec_hash(files), compute)
 
 
 def replay_conv_cases(pkg, cases, tag="cases"):
@@ -381,7 +393,11 @@ def check_c27(out, tier, seed, hb, pkg, key):
     for c in MC_CFGS:
         out.states += mc[c]["distinct"]
         out.transitions += mc[c]["gen"]
-    cases = mc["cases"]["cases"]
+    # the mixed-allocator universe: the code keys its memo by address, for which the model says `always right`;
+    # the trees that a NodePtr-keyed memo would get wrong are kept as the aimed inputs
+    mixed = mc["mixed_cases"]["cases"]
+    cases = mc["cases"]["cases"] + [{"tree": c["tree"], "correct": True, "res": c["tree"], "kinds": ["mixed_d1", "mixed_similar", "stable"],
+                                     "node_keyed_memo_wrong": not c["correct"]} for c in mixed]
     # spec -> impl: the model's per-tree verdict (can the conversion go wrong on fresh-children storage?)
     wrong, summary = replay_conv_cases(pkg, cases)
     out.traces += summary["done"]
@@ -391,8 +407,8 @@ def check_c27(out, tier, seed, hb, pkg, key):
             # the wheel is wrong on an input for which no behaviour of the model is: the model misses a failure mode
             out.drift.append("LazyConv model says tree %s cannot be converted wrongly, the wheel (wrapper %s) did: model incomplete" % (
                 _hex(m["case"]), kind))
-        v = C.Violation("C27", "clvm_tree_to_lazy_node(<%s> %s) is not the source tree (enumerated case of MCLazyConv; model: %s)" % (
-            kind, _hex(m["case"]), "address reuse can corrupt the memo" if m["model_can_fail"] else "cannot go wrong"),
+        v = C.Violation("C27", "clvm_tree_to_lazy_node(<%s> %s) is not the source tree (enumerated case of MCLazyConv / MCLazyConvMixed; model: %s)" % (
+            kind, _hex(m["observed"].get("src", m["case"])), "address reuse can corrupt the memo" if m["model_can_fail"] else "cannot go wrong"),
             {"direction": "spec->impl", "mismatch": _short(m)})
         v.signature = F1_SIG if kind in FRESH_WRAPPERS else "C27:wrapper:%s:%s" % (kind, C.sha256_str(json.dumps(m["case"], sort_keys=True))[:12])
         out.violations.append(v)
@@ -423,6 +439,8 @@ def check_c27(out, tier, seed, hb, pkg, key):
     out.extra.update({"conv_event_classes": classes, "wrong_by_wrapper": wrong,
                       "lazyconv_models": {c: {k: mc[c][k] for k in ("gen", "distinct", "violated")} for c in MC_CFGS},
                       "lazyconv_counterexample": mc["bug"]["trace"][:6000],
+                      "lazyconv_mixed_counterexample": mc["mixed_node"]["trace"][:6000],
+                      "mixed_trees": len(mixed), "mixed_trees_wrong_under_nodeptr_key": sum(1 for c in mixed if not c["correct"]),
                       "enumerated_trees": summary["trees"], "enumerated_trees_model_can_fail": summary["model_can_fail"],
                       "enumerated_fresh_conversions_wrong_in_wheel": summary["wrong_fresh"]})
     out.sample({"spec_case": cases[len(cases) // 2]})
@@ -433,7 +451,10 @@ def check_c27(out, tier, seed, hb, pkg, key):
                 "enumerated tree is replayed into the wheel under fresh and cached wrappers (a wrong result is only allowed where "
                 "the model can go wrong). Generated trees are wrapped in every CLVMStorage kind (Program built/cast/parsed/"
                 "from_bytes, CLVMTree, stable / shared-DAG storage, LazyNode from deser_legacy and deser_backrefs, a fresh-"
-                "children storage, Program.to_bytes_2026); TracePy decodes the recorded blob with Ser2026 and compares with the "
+                "children storage, Program.to_bytes_2026, and MIXED trees: Python pairs / lists / Program / fresh-children storage whose "
+                "leaves are LazyNode handles from 2..4 separate deser_legacy / deser_backrefs / deser_2026 calls on same-shaped "
+                "blobs, the same blob twice, LazyNodes next to CLVMTree / Program / fresh storage - LazyConvMixed.tla shows that a "
+                "memo keyed by NodePtr without the allocator conflates them, while the address key of the code does not); TracePy decodes the recorded blob with Ser2026 and compares with the "
                 "source. All cases are non-trivial.")
     out.assumptions = ["the model abstracts CPython's allocator to `any free address`; a wrong result in the wheel needs an actual reuse"]
 
